@@ -161,8 +161,10 @@ def evaluate(wm0, knobs, seed, ctx, max_probes=8, first_fault=None):
         seg[2] = seg[2].replace(tok, newtok)
         w2["lock"] = None
         other = "proj/src/probe_%d.rs" % n
-        w2["files"][other] = [["pad", "fn probe() {\n"], ["stmt", "mkPROBEq", world.render_stmt("bare", "mkPROBEq", "info", None,
-                                                                                                 style == "structured", "probe")],
+        mod0, mac0 = (wm["cfg"].get("macros") or world.DEFAULT_MACROS)[0]
+        w2["files"][other] = [["pad", "fn probe() {\n"], ["stmt", "mkPROBEq", world.render_stmt("bare", "mkPROBEq", mac0, None,
+                                                                                                 style == "structured", "probe",
+                                                                                                 module=mod0)],
                               ["pad", "}\n"]]
         run = scen.exec_run(w2, False, {"seed": seed + 10 + n, "perm": True, "faults": []}, knobs, ctx)
         ctx.probes["probe_runs"] += 1
